@@ -36,7 +36,7 @@ ASSUMPTIONS = ["positive-definite sequences are biased autocorrelations of rando
                "nearly singular positive-definite sequences (1e-6 > rho = P_p/r0): the class is rho >= Kdom*eps with Kdom = 8 "
                "(AR(1)), 32 (constant + floor), 200..3200 (rounded phases, tones, lattices): below a few eps (tens of eps "
                "for the less structured families) the double-precision recursion loses the pivot to its own rounding and "
-               "raises on an exactly positive-definite sequence (PENDING-FINDING, reproducer /tmp/finding_C10.py); the "
+               "raises on an exactly positive-definite sequence (ruling: round-off limit, DESIGN 0.9); the "
                "exact Schur-Cohn stability test is demanded for rho >= Kstab*eps (64..640 by family)"]
 RULE = ("PD sequences = biased autocorrelation of random dyadic data (real/complex), length 2..40, all orders (incl. 0), "
         "amplitudes 2^-100..2^70, leading-block-PD sequences with an indefinite tail, exactly zero first / later "
@@ -388,7 +388,7 @@ _NS_MAX = 1e-6          # upper end of the class (rho); the ordinary families ta
 #                                  rho/eps in 1..2^32, two thirds of them in 1..2^10), 10 000 - 20 000 (sequence, order) samples per family
 #   Kdom : the class is rho >= Kdom*eps.  Below a few eps (a few tens for the less structured families) the double-precision
 #          recursion itself loses the pivot: its computed P goes <= 0 and LEVINSON raises on an exactly positive-definite r
-#          (the round-off limit of double precision; reported as a finding and excluded here -- # PENDING-FINDING).
+#          (the round-off limit of double precision; reported as a finding and excluded here -- # RULING (round-off limit of the double recursion within a few eps of singularity: float conditioning, outside the model; DESIGN 0.9)).
 #          Largest rho/eps at which that was observed: const 3.65 (a sharp limit: 393 failures, all <= 3.65), ar1 none at all
 #          (19 500 samples down to rho = eps), constphi 5.96, ar1phi 12.5, toner 26.9, tonec 37.6, rc 60.9, rcc 103.
 #          Kdom = 8 x that for the two structured families (their failure limit is sharp, and a guard of the form
